@@ -603,22 +603,36 @@ def sym_int(x=0):
     return builtins.int(x)
 
 
+class SymRange:
+    """range(n) with symbolic n: iteration forks on 'n > i'; [-1] is n-1"""
+
+    def __init__(self, n):
+        self.n = n
+
+    def __iter__(self):
+        i = 0
+        while True:
+            if bool(self.n > i):
+                yield i
+                i += 1
+            else:
+                return
+
+    def __getitem__(self, k):
+        if k == -1:
+            return self.n - 1
+        raise Abort("SymRange index")
+
+    def __len__(self):
+        raise Abort("len of symbolic range")
+
+
 def sym_range(*a):
     if any(isinstance(x, SI) for x in a):
         if len(a) != 1:
             raise Abort("symbolic range with start/step")
-        return _symrange(a[0])
+        return SymRange(a[0])
     return builtins.range(*a)
-
-
-def _symrange(n):
-    i = 0
-    while True:
-        if bool(n > i):
-            yield i
-            i += 1
-        else:
-            return
 
 
 # --------------------------------------------------------------------------- UF exp/log/pow
